@@ -19,7 +19,7 @@ func init() {
 	core.Register(&core.Prop{
 		ID:    "C11",
 		Level: "exploration",
-		Rule: "EXHAUSTIVE grid: collection length 0..7 x offset {absent,0..8} x limit {absent,0..8} x reversed x {for, tablerow cols absent/1..4} (quick: full for length<=5, a PRNG 1/2 sample for lengths 6..7), each over 8 collection representations ([]any, []int, [N]int, range literal, range with variable endpoints, yaml.MapSlice, Drop of array, and maps as a multiset), break/continue at every iteration index (bare and inside if, and inside application-defined blocks registered with RegisterBlock); all range endpoint pairs in -3..6; cycle round-robin per loop and group for loop lengths 0..7; negative offset/limit only against invariants; PRNG nestings (depth<=3) of loops with conditionals, cycles and assigns against the reference model. The rendered per-iteration trace [item|index|index0|rindex|rindex0|length|first|last] is compared with the model. Non-trivial = at least one item selected or the else branch rendered; distinct = distinct (template, bindings).",
+		Rule: "EXHAUSTIVE grid: collection length 0..7 x offset {absent,0..8} x limit {absent,0..8} x reversed x {for, tablerow cols absent/1..4} (quick: full for length<=5, a PRNG 1/2 sample for lengths 6..7), each over 8 collection representations ([]any, []int, [N]int, range literal, range with variable endpoints, yaml.MapSlice, Drop of array, and maps as a multiset), break/continue at every iteration index (bare and inside if, and inside application-defined blocks registered with RegisterBlock); all range endpoint pairs in -3..6; cycle round-robin per loop and group for loop lengths 0..7; negative offset/limit only against invariants; offset/limit/cols/range endpoints as variables of every integer width, named integer types and results of numeric filters against the same loop written with literals; PRNG nestings (depth<=3) of loops with conditionals, cycles and assigns against the reference model. The rendered per-iteration trace [item|index|index0|rindex|rindex0|length|first|last] is compared with the model. Non-trivial = at least one item selected or the else branch rendered; distinct = distinct (template, bindings).",
 		Exhaustive: func(tier string) bool { return tier == "thorough" },
 		Assumptions: []string{
 			"tablerow output is compared after stripping the attributes of <tr> and <td> (only the row/cell structure is stated)",
@@ -294,6 +294,53 @@ func runC11(c *core.Ctx) {
 					if bad != "" {
 						c.Violate("negative-modifier|"+strings.ReplaceAll(bad, " ", "_"), "with a negative offset/limit (no meaning stated) the loop broke an invariant: "+bad,
 							map[string]any{"source": src, "length": L, "observed": res.Brief()})
+					}
+				}
+			}
+		}
+	}
+	// ---- modifiers and range endpoints given as variables of any integer width (also computed by a filter) -------------
+	for L := 0; L <= 6; L++ {
+		for off := 0; off <= 3; off++ {
+			for lim := 0; lim <= 4; lim += 2 {
+				for form := 0; form < 3; form++ {
+					idx++
+					if !c.Mine(idx) {
+						continue
+					}
+					r := c.Rand(idx, 111)
+					rep := gen.Rep{Widths: true, Unsigned: true, Named: true}
+					items := make([]any, L)
+					for i := range items {
+						items[i] = 10 + i
+					}
+					b := map[string]any{"coll": items, "o": gen.Realise(gen.Int(int64(off)), r, rep, false), "l": gen.Realise(gen.Int(int64(lim)), r, rep, false),
+						"c": gen.Realise(gen.Int(2), r, rep, false), "lo": gen.Realise(gen.Int(int64(off)), r, rep, false), "hi": gen.Realise(gen.Int(int64(off+lim)), r, rep, false)}
+					var src, ref string
+					switch form {
+					case 0:
+						src = "{% for x in coll offset: o limit: l %}{{ x }}.{{ forloop.index }},{% endfor %}|{% for x in (lo..hi) %}{{ x }},{% endfor %}"
+						ref = fmt.Sprintf("{%% for x in coll offset: %d limit: %d %%}{{ x }}.{{ forloop.index }},{%% endfor %%}|{%% for x in (%d..%d) %%}{{ x }},{%% endfor %%}", off, lim, off, off+lim)
+					case 1:
+						src = "{% tablerow x in coll cols: c offset: o %}{{ x }}{% endtablerow %}"
+						ref = fmt.Sprintf("{%% tablerow x in coll cols: 2 offset: %d %%}{{ x }}{%% endtablerow %%}", off)
+					default:
+						// numbers that come out of numeric filters (divided_by yields another integer type than a literal)
+						// (divided_by with an integer divisor yields an integer; plus/minus/times yield floats, whose use as a modifier is not stated)
+						src = "{% assign oo = o | times: 2 | divided_by: 2 %}{% assign ll = l | divided_by: 1 %}{% for x in coll offset: oo limit: ll %}{{ x }},{% endfor %}|{% assign h = hi | times: 3 | divided_by: 3 %}{% for x in (oo..h) %}{{ x }},{% endfor %}"
+						ref = fmt.Sprintf("{%% for x in coll offset: %d limit: %d %%}{{ x }},{%% endfor %%}|{%% for x in (%d..%d) %%}{{ x }},{%% endfor %%}", off, lim, off, off+lim)
+					}
+					if !c.Begin(fmt.Sprintf("modifier-widths:%s %s", src, gen.DescribeEnv(b))) {
+						continue
+					}
+					want := core.Run(e, ref, map[string]any{"coll": items})
+					got := core.Run(e, src, b)
+					c.Eval(2)
+					c.Obs("modifier_width_cases", 1)
+					c.Distinct("modw", src, gen.DescribeEnv(b))
+					if !want.OK() || !got.Same(want) {
+						c.Violate("modifier-width|"+resClass(got), "offset, limit, cols and range endpoints are numbers: a variable of another integer width or named type, or the result of a numeric filter, must select the same items as the literal",
+							map[string]any{"source": src, "bindings": gen.DescribeEnv(b), "with_literals": ref, "literals_gave": want.Brief(), "observed": got.Brief()})
 					}
 				}
 			}
